@@ -21,6 +21,8 @@
 (***************************************************************************)
 EXTENDS WireAbs, Json, IOUtils
 
+CONSTANT Deviations    \* ids of the OPEN known findings about other implementations: {"F38", "F39"} or a subset (see WireAbs)
+
 VARIABLES m, l
 TraceLog == ndJsonDeserialize(IOEnv.TRACE)
 N == Len(TraceLog)
@@ -28,13 +30,19 @@ Empty == [what |-> <<0, 0, 0, 0>>, fields |-> <<>>]
 Calls == {"Add", "Prepend", "Remove", "Replace", "RemoveName"}
 
 \* registers: 1 = line being explained, 5 = the Message before it, 2 = calls whose reported status differs from the documented one (bytes agree),
-\* 3 / 4 = Vec / PyEcho lines inside the repertoire of message.py (parsing / native construction): vacuity guards for Common
-TraceInit == m = Empty /\ l = 1 /\ TLCSet(1, 1) /\ TLCSet(2, 0) /\ TLCSet(3, 0) /\ TLCSet(4, 0) /\ TLCSet(5, Empty)
+\* 3 / 4 = Vec / PyEcho lines inside the repertoire of message.py (parsing / native construction): vacuity guards for Common,
+\* 6 / 7 = lines on which the tolerated finding F38 / F39 applied AND the leg it concerns disagreed (the finding reproduced)
+TraceInit == m = Empty /\ l = 1 /\ TLCSet(1, 1) /\ TLCSet(2, 0) /\ TLCSet(3, 0) /\ TLCSet(4, 0) /\ TLCSet(5, Empty) /\ TLCSet(6, 0) /\ TLCSet(7, 0)
+Dev38(mm) == "F38" \in Deviations /\ F38(mm)
+Dev39(mm) == "F39" \in Deviations /\ F39(mm)
 
 Same(ln, mm) == ln.b = Flatten(mm) /\ ln.z = FlattenedSize(mm)
-Agree(o, mm) == /\ o.mini_u = 1 /\ o.mini_b = 1 /\ o.micro_u = 1 /\ o.micro_b = 1
-                /\ Common("python", mm) => o.py_u = 1
-                /\ Common("pynative", mm) => o.py_b = 1
+Agree(o, mm) == /\ o.mini_u = 1 /\ o.mini_b = 1 /\ o.micro_b = 1
+                /\ ~Dev38(mm) => o.micro_u = 1
+                /\ (Dev38(mm) /\ o.micro_u # 1) => TLCSet(6, TLCGet(6) + 1)
+                /\ (Common("python", mm) /\ ~Dev39(mm)) => o.py_u = 1
+                /\ (Common("pynative", mm) /\ ~Dev39(mm)) => o.py_b = 1
+                /\ (Common("python", mm) /\ Dev39(mm) /\ (o.py_u # 1 \/ o.py_b # 1)) => TLCSet(7, TLCGet(7) + 1)
 FrameKeys == {"cpp_r_cpp", "mini_g", "mini_r", "cpp_r_mini", "micro_g", "micro_r", "cpp_r_micro"}
 
 TNew    == /\ TraceLog[l].op = "New"
@@ -58,7 +66,8 @@ TFrames == /\ TraceLog[l].op = "Frames"
 TPyEcho == /\ TraceLog[l].op = "PyEcho"
            /\ LET ln == TraceLog[l] IN
               /\ WellFormed(ln.m) /\ ln.b = Flatten(ln.m)
-              /\ Common("python", ln.m) => ln.same = 1 /\ TLCSet(3, TLCGet(3) + 1)
+              /\ (Common("python", ln.m) /\ ~Dev39(ln.m)) => ln.same = 1 /\ TLCSet(3, TLCGet(3) + 1)
+              /\ (Common("python", ln.m) /\ Dev39(ln.m) /\ ln.same # 1) => TLCSet(7, TLCGet(7) + 1)
            /\ m' = m
 TraceNext == l <= N /\ (TNew \/ TCall \/ TVec \/ TFrames \/ TPyEcho) /\ l' = l + 1
 TraceSpec == TraceInit /\ [][TraceNext]_<<m, l>>
@@ -69,9 +78,9 @@ Track == TLCSet(1, l) /\ TLCSet(5, m)
 Expect(ln, mm) == IF ln.op \in Calls THEN LET r == ApplyStep(mm, ln) IN [op |-> ln.op, spec_b |-> Flatten(r.m), spec_z |-> FlattenedSize(r.m), spec_ok |-> r.ok, code_b |-> ln.b, code_z |-> ln.z]
                   ELSE IF ln.op = "New" THEN [op |-> ln.op, spec_b |-> Flatten([what |-> ln.w, fields |-> <<>>]), code_b |-> ln.b]
                   ELSE IF ln.op \in {"Vec", "PyEcho"} THEN [op |-> ln.op, wellformed |-> WellFormed(ln.m), spec_b |-> Flatten(ln.m), spec_z |-> FlattenedSize(ln.m), code_b |-> ln.b,
-                                                           python |-> Common("python", ln.m), pynative |-> Common("pynative", ln.m), outcome |-> IF "o" \in DOMAIN ln THEN ln.o ELSE ln.same]
+                                                           python |-> Common("python", ln.m), pynative |-> Common("pynative", ln.m), f38 |-> F38(ln.m), f39 |-> F39(ln.m), outcome |-> IF "o" \in DOMAIN ln THEN ln.o ELSE ln.same]
                   ELSE IF ln.op = "Frames" THEN [op |-> ln.op, spec_stream |-> FrameStream(ln.bs), code_stream |-> ln.st, outcome |-> ln.o]
                   ELSE [op |-> ln.op]
-Report == /\ PrintT(<<"maxline", TLCGet(1), "of", N, "statusdiffers", TLCGet(2), "pyok", TLCGet(3), "pynative", TLCGet(4)>>)
+Report == /\ PrintT(<<"maxline", TLCGet(1), "of", N, "statusdiffers", TLCGet(2), "pyok", TLCGet(3), "pynative", TLCGet(4), "F38", TLCGet(6), "F39", TLCGet(7)>>)
           /\ TLCGet(1) <= N => PrintT("@@" \o ToJson([line |-> TLCGet(1)] @@ Expect(TraceLog[TLCGet(1)], TLCGet(5))))
 =============================================================================
